@@ -40,3 +40,4 @@ SPEC = {'id': 'C13',
                'it. Correspondence with the real GroupCoordinator on generated histories incl. stale/future generations, expired and unknown members, and '
                "commits racing with membership changes (store hook between OffsetCommit's check and write); implementation-side oracle on the real replies and "
                'stored offsets.'}
+SPEC['level_text'] += " The harness's oracle keeps its own ground truth that does not depend on the store image a new coordinator restores (members seen to be removed stay fenced until they join again; the highest generation the group was seen to have), and the generator regularly produces 'member expired by a tick / left -> failover before any survivor rejoins -> requests from the removed member and from survivors with their last-seen generation', so a lost or stale persist shows up as an accepted zombie request / a decreasing generation with a concrete replay."
